@@ -21,7 +21,7 @@ SPEC = {
     "C06": (["CONNECT_ACK", "IDENTIFY_ACK", "AUTH_ACK"] + ERR, [0], True, []),
     "C07": (["IDENTIFY_ACK", "AUTH_ACK", "MESSAGE", "EVENT"] + ERR, [0, 1, 3], True, ["C07"]),
     "C08": (["MESSAGE", "BROADCAST_ACK"] + ERR, [1], True, ["C08"]),
-    "C09": (["AUTH_ACK", "IDENTIFY_ACK", "CONNECT_ACK"] + ERR, [0], True, []),
+    "C09": (["AUTH_ACK", "IDENTIFY_ACK", "CONNECT_ACK"] + ERR, [0], True, ["C09"]),
     "C12": ([], [], True, ["C12"]),
     "C14": (["JOIN_ACK", "SET_CHAN_ACL_ACK", "SET_CHAN_CONFIG_ACK", "CHAN_CONFIG", "BROADCAST_ACK", "CONNECT_ACK"] + ERR, [], True, ["C14"]),
     "C17": (["MOD_DIRECT", "MOD_DIRECT_ACK"] + ERR, [3], True, ["C17"]),
@@ -155,6 +155,7 @@ def run(prop, theorems, tier, replay=None, extra_gen=None, known_classifier=None
         v += srvmon.Tracker(case, ob).run()
         v += srvmon.audit_check(case, ob)
         v += srvmon.acl_check(case, ob)
+        v += srvmon.stalled_resume_check(case, ob)
         for t, o in enumerate(ob["ops"]):
             for k, e in o.get("ended", {}).items():
                 if e.get("panicked"):
